@@ -570,6 +570,55 @@ fn probe(exe: &std::path::Path) -> Result<(), String> {
   finish(Ok(()))
 }
 
+// ------------------------------------------------------------------ the poll adapter alone
+
+// What RealDriver::register_poll + poll report for descriptors in given situations (the mio/epoll adapter of
+// the real driver, through the hook real_driver_poll_once).  In particular a device that goes away with
+// nothing queued (hang-up without readable data) must be reported as a wake-up of that device: under
+// edge-triggered readiness a wake-up that is swallowed never comes again and the loop sleeps for ever.
+// Lines:  POLLPROBE <name> expected=<..> observed=<..>
+fn poll_probes(out: &mut dyn Write) -> Result<(), String> {
+  use crate::remapping_loop::verif::{real_driver_poll_once, VPollResult, VDevice};
+  let show = |r: &Result<VPollResult, String>| -> String {
+    match r {
+      Ok(VPollResult::TimedOut) => "TimedOut".to_string(),
+      Ok(VPollResult::Interrupted) => "Interrupted".to_string(),
+      Ok(VPollResult::DeviceEvent(ds)) => {
+        let mut v: Vec<&str> = ds.iter().map(|d| match d { VDevice::Keyboard => "K", VDevice::Tablet => "T" }).collect();
+        v.sort(); v.dedup();
+        format!("DeviceEvent[{}]", v.join(","))
+      }
+      Err(e) => format!("Err({})", e),
+    }
+  };
+  // situation: (name, data on keyboard?, keyboard writer closed?, data on tablet?, tablet writer closed?, expected)
+  let sits: Vec<(&str, bool, bool, bool, bool, &str)> = vec![
+    ("idle", false, false, false, false, "TimedOut"),
+    ("keyboard-data", true, false, false, false, "DeviceEvent[K]"),
+    ("tablet-data", false, false, true, false, "DeviceEvent[T]"),
+    ("both-data", true, false, true, false, "DeviceEvent[K,T]"),
+    ("keyboard-gone-empty", false, true, false, false, "DeviceEvent[K]"),
+    ("keyboard-gone-with-data", true, true, false, false, "DeviceEvent[K]"),
+    ("tablet-gone-empty", false, false, false, true, "DeviceEvent[T]"),
+  ];
+  for (name, kdata, kclosed, tdata, tclosed, expected) in sits {
+    let (kr, kw) = pipe_cloexec()?;
+    let (tr, tw) = pipe_cloexec()?;
+    let (or_, ow) = pipe_cloexec()?;
+    set_nonblock(kr, true); set_nonblock(tr, true);
+    if kdata { write_all(kw, &[0u8; REC])?; }
+    if tdata { write_all(tw, &[0u8; REC])?; }
+    if kclosed { close(kw); }
+    if tclosed { close(tw); }
+    let r = catch_unwind(AssertUnwindSafe(|| real_driver_poll_once(kr, Some(tr), ow, Some(Duration::from_millis(if name == "idle" { 30 } else { 3000 }))))).unwrap_or_else(|_| Err("PANIC".to_string()));
+    writeln!(out, "POLLPROBE {} expected={} observed={}", name, expected, show(&r)).map_err(|e| e.to_string())?;
+    if !kclosed { close(kw); }
+    if !tclosed { close(tw); }
+    close(kr); close(tr); close(or_); close(ow);
+  }
+  Ok(())
+}
+
 // ------------------------------------------------------------------ entry points
 
 pub fn main(args: &[String]) -> i32 {
@@ -585,6 +634,11 @@ pub fn main(args: &[String]) -> i32 {
   std::fs::create_dir_all(&out_dir).unwrap();
   let exe = match std::env::current_exe() { Ok(p) => p, Err(e) => { println!("REALLOOP-UNAVAILABLE cannot find my own executable: {}", e); return EXIT_UNAVAILABLE; } };
   if let Err(e) = probe(&exe) { println!("REALLOOP-UNAVAILABLE {}", e); return EXIT_UNAVAILABLE; }
+  {
+    let path = format!("{}/poll_probes.txt", out_dir);
+    let mut f = std::fs::File::create(&path).expect("create poll_probes.txt");
+    if let Err(e) = poll_probes(&mut f) { println!("REALLOOP-UNAVAILABLE poll probes: {}", e); return EXIT_UNAVAILABLE; }
+  }
   let t0 = Instant::now();
   let cases = Arc::new(make_cases(seed, thorough, scale));
   let next = Arc::new(AtomicUsize::new(0));
